@@ -14,6 +14,7 @@ import replicat.repository as R
 from replicat.backends.local import Local
 
 from vt import lift, rt, world
+from vt.lift import RealFallback
 from vt.core import digits, shard, tick
 
 rt.quiet_repository()
@@ -160,7 +161,7 @@ class _LenHasher:
         return ('dg', self.n)
 
 
-class _L1Self:
+class _L1Self(RealFallback):
     class props:
         class chunker:
             alignment = 4
@@ -226,7 +227,7 @@ def l1_layout(s0: int, s1: int, s2: int, piece: int, reported: int = 0) -> bool:
 
 
 # =========================================================================== S: P1 restore plan
-class _PlanSelf:
+class _PlanSelf(RealFallback):
     """`self` for the lifted planning statements of restore(): real helpers, recording metadata restore."""
     _compile_or_none = R.Repository._compile_or_none
 
@@ -682,6 +683,68 @@ def e_cfg(k: int) -> bool:
     with NoTracing():
         # the third file is large enough (hundreds of chunks) to fill the producer queue (10 x concurrency) several times
         return _e('e_cfg', [[0, 9, 40][i0], 12, [21, 700, 333][(cfgi + chi) % 3]], 1, 0, 0, [1, 2, 5][conci], cfgi, chi)
+
+
+ODD_NAMES = [
+    'plain.tmp', 'session_k3j9x0aa.tmp', 'data_abcdefgh.tmp', '.hidden', '..double', 'with space', 'new\nline', 'tab\there', '-dash', 'config',
+    'snapshots', 'a' * 255, 'caf\u00e9-\u4e2d\u6587', 'x.part', 'y.lock', 'z~', '#hash#', '%41', 'name_1234567_.tmp', 'UPPER.TMP', '{brace}', "quote'\"", 'back\\slash', '*star?',
+]
+
+
+def names_case(group, argmode, conc):
+    """Files with unusual but legal names (names that look like temporaries of tools or of the local backend, hidden files,
+    control characters, 255-byte names, names of repository areas ...), reached through a directory argument, as explicit file
+    arguments, or below a sub-directory: every one is recorded and restored."""
+    names = ODD_NAMES[group * 6:(group + 1) * 6]
+    with world.scratch('c01n') as d:
+        src = d / 'src'
+        (src / 'sub').mkdir(parents=True)
+        want = {}
+        for i, n in enumerate(names):
+            for parent in (src, src / 'sub'):
+                p = parent / n
+                p.write_bytes(b'content of ' + n.encode('utf-8', 'surrogateescape')[:40] + bytes([i]))
+                os.utime(p, ns=(1_500_000_000_000_000_000, 1_400_000_000_000_000_000 + i))
+                want[str(p.resolve()).lstrip('/')] = (p.read_bytes(), p.stat().st_mtime_ns)
+        if argmode == 0:
+            args = [src]
+        elif argmode == 1:
+            args = sorted(src.iterdir())               # the files and the sub-directory one by one
+        else:
+            args = [src / 'sub'] + [src / n for n in names]
+
+        async def run():
+            repo = world.make_repo(Local(str(d / 'repo')), concurrent=conc)
+            with rt.silence():
+                init = await repo.init(password=b'pw', settings=rt.fast_settings(True), key_output_path=None)
+            snap = await repo.snapshot(paths=list(args))
+            repo2 = world.make_repo(Local(str(d / 'repo')), concurrent=conc)
+            await repo2.unlock(password=b'pw', key=init.key)
+            await repo2.restore(path=d / 'out')
+            return snap
+        try:
+            snap = asyncio.run(run())
+        except Exception as e:
+            return False, f'command raised {e!r}'
+        got = world.tree_state(d / 'out')
+        if got != want:
+            missing = sorted(k.rsplit('/', 1)[1] for k in set(want) - set(got))
+            return False, f'restored tree differs: missing {missing[:6]}, extra {sorted(set(got) - set(want))[:3]}, changed {[k for k in want if k in got and got[k] != want[k]][:3]}'
+        return True, ''
+
+
+def e_names(k: int) -> bool:
+    """
+    pre: 0 <= k < 4 * 3 * 2
+    post: _
+    """
+    g, am, ci = digits(k, [4, 3, 2])
+    with NoTracing():
+        ok, msg = names_case(g, am, [1, 3][ci])
+        tick('e_names', [g, am, ci])
+        if not ok:
+            _say(msg)
+        return ok
 
 
 def e_slow(k: int) -> bool:
